@@ -39,7 +39,18 @@ namespace
     struct leaf_budget
     {
         std::size_t capacity;
+        // a leaf that sits in (or below) the Default position of a fallback_allocator is only ever asked through the composable
+        // try_ members; the routing kinds give exactly those leaves a budget below 1 MiB
+        bool try_only() const
+        {
+            return capacity < (1u << 20);
+        }
     };
+    inline void throwing_interface_used(const char* what)
+    {
+        viol_nothrow("C03", "C03/" + cx().kind + "/throwing-interface-below-try",
+                     std::string(what) + " of a leaf that the composition may only reach through try_ members was called (a try_ function must return null, not throw or grow)");
+    }
     // (the tag makes leaves of one composition distinct types: nested fallback_allocators over the same allocator type do not
     //  compile, their ebo_storage bases become ambiguous - a build-time matter outside this family)
     template <int Tag>
@@ -55,12 +66,16 @@ namespace
         }
         void* allocate_node(std::size_t size, std::size_t al)
         {
+            if (b->try_only())
+                throwing_interface_used("allocate_node");
             if (!fits(size))
                 throw out_of_fixed_memory(allocator_info{"vf::cleaf", this}, size);
             return s->acquire(false, 1, size, al);
         }
         void* allocate_array(std::size_t c, std::size_t size, std::size_t al)
         {
+            if (b->try_only())
+                throwing_interface_used("allocate_array");
             if (!fits(c * size))
                 throw out_of_fixed_memory(allocator_info{"vf::cleaf", this}, c * size);
             return s->acquire(true, c, size, al);
@@ -75,10 +90,14 @@ namespace
         }
         void deallocate_node(void* p, std::size_t size, std::size_t al) noexcept
         {
+            if (b->try_only())
+                throwing_interface_used("deallocate_node");
             s->release(false, p, 1, size, al);
         }
         void deallocate_array(void* p, std::size_t c, std::size_t size, std::size_t al) noexcept
         {
+            if (b->try_only())
+                throwing_interface_used("deallocate_array");
             s->release(true, p, c, size, al);
         }
         bool try_deallocate_node(void* p, std::size_t size, std::size_t al) noexcept
@@ -208,6 +227,8 @@ namespace
             run_case(kind, c, [&] {
                 auto   r = case_rng(a.seed, a.group, kind, c);
                 leaves lv;
+                // what a leaf sees (shape of a release, a release of memory it does not hold) is the composition's forwarding
+                also_scope as("C09", "C08");
                 {
                     auto   top = make(lv, r);
                     shadow sh;
